@@ -5,6 +5,20 @@ import json, os, subprocess
 ROOT = os.path.dirname(os.path.dirname(os.path.abspath(__file__)))
 
 CLAIMED = {
+ "C14": dict(
+   text="Theorems in Coq about an executable model of the Open batch on both sides of the RPC (container: per-item MkdirAll / lstat / OpenFile with "
+        "the descriptor list compacted and the error list full length; host: the lock-step walk): C14_alignment / C14_result_at (for every batch "
+        "length and every success/failure pattern the k-th result is the k-th item's), C14_only_regular (a descriptor is returned only for a path "
+        "that was absent or a regular file at the check, and it is the one opened for that item), inconsistent replies are errors with every "
+        "taken descriptor closed, Symlink alignment.  Tie on every run: 60 (thorough 600) scenarios in a real container where a program plants "
+        "regular files, directories, FIFOs, sockets, symlinks (to a secret file, to a directory, dangling) and file-as-parent paths, then random "
+        "batches of 0..64 items with 5 flag words and MkdirAll; result classes per index vs the model evaluated in Coq; identity (dev, inode) of "
+        "every returned file vs a re-open of the same path, access mode, close-on-exec, the secret untouched, elapsed time; Symlink and Delete "
+        "outcomes vs the state; 150 (thorough 1500) rounds of 250-item create/read-back batches on one environment.",
+   note="Trusted: Coq kernel + vm_compute; the per-item facts (lstat kind, success of mkdir/open) enter the model as data derived by the driver from "
+        "the planted state (validated by the kinds probe after each history); os.* semantics; gob/socket transport is C19's subject.",
+   technique="Coq proof (induction over the batch) + in-Coq differential evaluation against a real container with planted file-system states",
+   design="§5 C14"),
  "C08": dict(
    text="Theorems in Coq about executable models of PrepareRLimit (C08_rlimit_values: an entry iff configured, soft = hard = configured, CPU hard = "
         "max(CPUHard, CPU), full 64-bit values; once per resource), of the prlimit64 loop in the child (C08_limits_in_force: configured resources "
